@@ -33,7 +33,8 @@ def compare_pair(ctx, case, cfgd, Tc, Ti, data, offset, full=None, label="full")
     top = case["top"]
     a = outcome(Tc, data, offset)
     b = outcome(Ti, data, offset)
-    key = (case["text"], cfgd["endian"], cfgd["align"], cfgd["ptr"], data.hex(), offset)
+    key = (case["text"], cfgd["endian"], cfgd["align"], cfgd["ptr"], data.hex(), offset, cfgd.get("switched_to"),
+           tuple(cfgd.get("modes") or ()))
     ctx.evaluation(key)
 
     def viol(kind, sig, **kw):
@@ -63,11 +64,11 @@ def compare_pair(ctx, case, cfgd, Tc, Ti, data, offset, full=None, label="full")
     else:
         ctx.event(f"mixed:{label}")
         ok_tell = a[2] if a[0] == "ok" else b[2]
-        if label in ("full", "offset", "odd-offset") and ok_tell is not None and ok_tell > len(data):
+        if label in ("full", "offset", "odd-offset", "endian-switch") and ok_tell is not None and ok_tell > len(data):
             # the input is shorter than the structure's extent and the reader that returned a value only skipped
             # (trailing) padding beyond the end; the other one read it: no contradiction
             ctx.event("mixed_outcome_on_missing_padding")
-        elif label == "full":
+        elif label in ("full", "endian-switch"):
             which = "compiled" if a[0] == "err" else "interpreted"
             exc = a[1] if a[0] == "err" else b[1]
             viol("outcome", f"only-{which}-raises:{type(exc).__name__}", error=lib.exc_sig(exc))
@@ -141,17 +142,73 @@ def check_case(ctx, case, rng, shapes):
                     p = rng.randint(1, 5) * 16
                     pre = bytes(rng.randrange(256) for _ in range(p))
                     compare_pair(ctx, case, cfgd, Tc, Ti, pre + inp, p, label="offset")
-                    if not align:
-                        # packed structures may start anywhere (for aligned ones C09 restricts the claim to aligned
-                        # start positions: unaligned starts mix absolute and relative alignment in both readers)
-                        q = rng.randint(1, 40) | 1
-                        pre = bytes(rng.randrange(256) for _ in range(q))
-                        compare_pair(ctx, case, cfgd, Tc, Ti, pre + inp, q, label="odd-offset")
+                    # an odd start: for aligned structures the value is position dependent there (tail and dynamic
+                    # alignment use the absolute stream position, C09 excludes it), but whatever the interpreted
+                    # reader does the compiled one must do as well
+                    q = rng.randint(1, 40) | 1
+                    pre = bytes(rng.randrange(256) for _ in range(q))
+                    compare_pair(ctx, case, cfgd, Tc, Ti, pre + inp, q, label="odd-offset")
                     if used:
                         cuts = range(used) if (thorough and used <= 48) else sorted(
                             {0, used - 1, max(0, used - 2), used // 2, *[rng.randrange(used) for _ in range(3)]})
                         for k in cuts:
                             compare_pair(ctx, case, cfgd, Tc, Ti, inp[:k], 0, full=full, label="cut")
+                # the byte order of the cstruct object is switched after both readers exist: the compiled reader
+                # must follow it exactly as the interpreted one does (nothing of the load-time order is baked in)
+                other = ">" if endian == "<" else "<"
+                cc.endian = ci.endian = other
+                sw = dict(cfgd, switched_to=other)
+                for inp in inputs[-2:]:
+                    compare_pair(ctx, case, sw, Tc, Ti, inp, 0, label="endian-switch")
+
+
+def load_modes(case, cfgd, compiled):
+    """One load() per declaration, each with its own align flag (cfgd["modes"])."""
+    cs = lib.cstruct(endian=cfgd["endian"], pointer=cfgd["ptr"])
+    for d, al in zip(case["decls"], cfgd["modes"]):
+        cs.load(gen.render_decl(d) + "\n", compiled=compiled, align=bool(al))
+    return cs
+
+
+def mixed_modes(ctx, case, rng):
+    """Declarations of one cstruct object loaded with different align flags: aligned structures nested in packed
+    ones (possibly at unaligned offsets) and the reverse.  The readers must still agree with each other."""
+    if len(case["decls"]) < 2:
+        return
+    modes = [rng.random() < 0.5 for _ in case["decls"]]
+    if len(set(modes)) < 2:
+        modes[rng.randrange(len(modes))] ^= True
+    cfgd = {"endian": rng.choice("<>"), "align": "mixed", "ptr": rng.choice(PTRS), "modes": [int(m) for m in modes]}
+    try:
+        ci = load_modes(case, cfgd, False)
+        err_i = None
+    except Exception as e:  # noqa: BLE001
+        err_i = e
+    try:
+        cc = load_modes(case, cfgd, True)
+        err_c = None
+    except Exception as e:  # noqa: BLE001
+        err_c = e
+    ctx.evaluation((case["text"], "mixed-load", tuple(cfgd["modes"])))
+    if (err_i is None) != (err_c is None):
+        ctx.violation("load", f"mixed-modes:load-differs:{type(err_i or err_c).__name__}",
+                      case_detail(case, cfg=cfgd, compiled_error=repr(err_c), interpreted_error=repr(err_i)))
+        return
+    if err_i is not None:
+        ctx.event("load_rejected_by_both")
+        return
+    Tc, Ti = cc.T, ci.T
+    ctx.cell("mixed-modes", f"mixed-modes:compiled:{bool(Tc.__compiled__)}")
+    if type_sig(Tc) != type_sig(Ti):
+        ctx.violation("layout", "mixed-modes:compiled-vs-interpreted-layout", case_detail(case, cfg=cfgd))
+        return
+    for mode in rng.sample(range(4), 3):
+        inp = gen.arbitrary_bytes(rng, rng.randint(0, 40) + 96, mode)
+        compare_pair(ctx, case, cfgd, Tc, Ti, inp, 0)
+        p = rng.randint(1, 5) * 16
+        compare_pair(ctx, case, cfgd, Tc, Ti, bytes(p) + inp, p, label="offset")
+        q = rng.randint(1, 40) | 1
+        compare_pair(ctx, case, cfgd, Tc, Ti, bytes(q) + inp, q, label="odd-offset")
 
 
 def custom_type_fallback(ctx, rng):
@@ -304,6 +361,7 @@ def run(ctx):
         for t in case["feats"]:
             ctx.cell("feat:" + t)
         check_case(ctx, case, rng, shapes)
+        mixed_modes(ctx, case, rng)
         if i < 2:
             ctx.sample({"text": case["text"], "feats": case["feats"]})
     ctx.extra["distinct_struct_formats"] = sorted(shapes["fmt"])[:200]
@@ -315,8 +373,13 @@ def replay(ctx, detail):
     cfgd = detail["cfg"]
     print("definition:\n" + case["text"])
     print("config:", cfgd)
-    cc = lib.load(case["text"], cfgd["endian"], cfgd["align"], True, cfgd["ptr"])
-    ci = lib.load(case["text"], cfgd["endian"], cfgd["align"], False, cfgd["ptr"])
+    if cfgd.get("modes"):
+        cc, ci = load_modes(case, cfgd, True), load_modes(case, cfgd, False)
+    else:
+        cc = lib.load(case["text"], cfgd["endian"], cfgd["align"], True, cfgd["ptr"])
+        ci = lib.load(case["text"], cfgd["endian"], cfgd["align"], False, cfgd["ptr"])
+    if cfgd.get("switched_to"):
+        cc.endian = ci.endian = cfgd["switched_to"]
     if "data" in detail:
         data = engine.unhex(detail["data"])
         a, b = compare_pair(ctx, case, cfgd, cc.T, ci.T, data, detail.get("offset", 0), label=detail.get("label", "full"))
